@@ -1,5 +1,6 @@
 mod interp;
 mod prog;
+mod dfs;
 mod rec;
 mod sample;
 mod serial;
@@ -239,6 +240,18 @@ fn cmd_one(args: &[String]) {
     let p = &progs[idx];
     if args.iter().any(|a| a == "--slen") {
         interp::LOG_SLEN.store(true, std::sync::atomic::Ordering::Relaxed);
+    }
+    if arg(args, "--mode") == Some("dfs") {
+        let (meta, log) = dfs::dfs_program(p, cap);
+        let f = std::fs::File::create(format!("{out}/p{idx}.dfslog")).unwrap();
+        let mut w = BufWriter::new(f);
+        for l in log {
+            writeln!(w, "{l}").unwrap();
+        }
+        // an empty trie keeps the merge step uniform
+        write_trie(&Trie::new(), &format!("{out}/p{idx}.trie"));
+        std::fs::write(format!("{out}/p{idx}.meta"), meta.to_string()).unwrap();
+        return;
     }
     if arg(args, "--mode") == Some("sample") {
         let iters: usize = arg(args, "--iters").unwrap_or("50").parse().unwrap();
